@@ -17,13 +17,13 @@ const HEADER: usize = 64;
 #[derive(Clone, Debug)]
 struct SendAt { at_us: u64, size: usize, id: u16 }
 #[derive(Clone, Debug)]
-struct Scenario { bitrate: usize, latency_us: u64, policy: i64 /* -2 Drop, -1 Queue(None), >=0 Queue(Some(limit)) */, sends: Vec<SendAt>, consume_id: Option<u16>, end_err: bool }
+struct Scenario { bitrate: usize, latency_us: u64, policy: i64 /* -2 Drop, -1 Queue(None), >=0 Queue(Some(limit)) */, sends: Vec<SendAt>, consume_id: Option<u16>, end_err: u8 /* 0 = no, 1 = at_sim_end returns Err, 2 = a must-join task is still pending at the end (JoinError) */ }
 
 // what was observed: ("start"|"incoming"|"end"|"handle", kind, id, time_ns)
 static LOG: Mutex<Vec<(&'static str, u16, u16, u64)>> = Mutex::new(Vec::new());
 static SENDS: Mutex<Vec<SendAt>> = Mutex::new(Vec::new());
 static CONSUME: Mutex<Option<u16>> = Mutex::new(None);
-static END_ERR: Mutex<bool> = Mutex::new(false);
+static END_ERR: Mutex<u8> = Mutex::new(0);
 
 fn now_ns() -> u64 { SimTime::now().as_nanos() as u64 }
 
@@ -52,6 +52,10 @@ struct Node;
 impl Module for Node {
     fn stack(&self, mut stack: ProcessingStack) -> ProcessingStack { stack.append((Probe, Inner)); stack }
     fn at_sim_start(&mut self, _stage: usize) {
+        if *END_ERR.lock().unwrap() == 2 {
+            // a task the module promises to join that never finishes: tear-down reports a JoinError, the bracket must still close
+            current().join(tokio::spawn(std::future::pending::<()>()));
+        }
         let sends = SENDS.lock().unwrap().clone();
         for s in sends.iter() {
             schedule_in(Message::default().kind(TIMER).id(s.id), StdDuration::from_micros(s.at_us));
@@ -59,7 +63,7 @@ impl Module for Node {
     }
     fn at_sim_end(&mut self) -> Result<(), RuntimeError> {
         // a tear-down that reports an error must still be bracketed by event_start / event_end
-        if *END_ERR.lock().unwrap() { Err(RuntimeError::empty()) } else { Ok(()) }
+        if *END_ERR.lock().unwrap() == 1 { Err(RuntimeError::empty()) } else { Ok(()) }
     }
     fn handle_message(&mut self, msg: Message) {
         let (k, i) = (msg.header().kind, msg.header().id);
@@ -195,7 +199,7 @@ fn gen(r: &mut dyn FnMut() -> u64) -> Scenario {
     let total: usize = sends.iter().map(|s| s.size + HEADER).sum();
     let policy = match r() % 4 { 0 => -2, 1 => -1, 2 => 0, _ => { let l = r() as usize % (total + 1); if r() % 2 == 0 { l as i64 } else { (sends[(r() as usize) % sends.len()].size + HEADER) as i64 * (1 + (r() % 2) as i64) } } };
     let consume_id = if r() % 5 == 0 { Some(1 + (r() % n as u64) as u16) } else { None };
-    let end_err = r() % 6 == 0;
+    let end_err = match r() % 9 { 0 => 1u8, 1 => 2u8, _ => 0u8 };
     Scenario { bitrate, latency_us, policy, sends, consume_id, end_err }
 }
 
